@@ -12,6 +12,7 @@ use khttp::{ConnectionSetupAction, Headers, Method, PreRoutingAction, Server, St
 use std::collections::HashMap;
 use std::io::{Read, Write};
 use std::net::{TcpListener, TcpStream};
+use std::os::unix::io::AsRawFd;
 use std::sync::{Arc, Mutex};
 use std::time::{Duration, Instant};
 
@@ -49,6 +50,19 @@ fn build(port: u16, threads: usize, sh: Arc<Shared>, slow_teardown: bool) -> Ser
         res.ok(&h, "bye")
     });
     b.route(Method::Get, "/err", |_ctx, _res| Err(std::io::Error::other("handler error")));
+    // a body on methods that usually have none: the framing fields decide, not the method
+    for m in [Method::Get, Method::Put, Method::Delete] {
+        b.route(m, "/gecho", |mut ctx, res| {
+            let body = ctx.body().vec()?;
+            res.ok(Headers::empty_nodate(), body)
+        });
+    }
+    // interim response first (Expect: 100-continue), then the body is read and echoed
+    b.route(Method::Post, "/continue", |mut ctx, res| {
+        res.send_100_continue()?;
+        let body = ctx.body().vec()?;
+        res.ok(Headers::empty_nodate(), body)
+    });
     // the handler returns Ok without answering: nothing is sent, the connection stays usable
     b.route(Method::Get, "/silent", |_ctx, _res| Ok(()));
     // the handler fails with an error of the named kind (a failed write to a peer that went away, a truncated upload, ...)
@@ -65,6 +79,11 @@ fn build(port: u16, threads: usize, sh: Arc<Shared>, slow_teardown: bool) -> Ser
             _ => Other,
         };
         Err(std::io::Error::new(kind, "handler error"))
+    });
+    b.route(Method::Get, "/slow/:ms", |ctx, res| {
+        let ms: u64 = ctx.params.get("ms").and_then(|s| s.parse().ok()).unwrap_or(0);
+        std::thread::sleep(Duration::from_millis(ms));
+        res.ok(Headers::empty_nodate(), "slow")
     });
     b.route(Method::Get, "/bigr/:n", |ctx, res| {
         let n: u64 = ctx.params.get("n").and_then(|s| s.parse().ok()).unwrap_or(0);
@@ -190,15 +209,20 @@ pub fn serve(arg: &str) -> String {
                     let _ = client.shutdown(std::net::Shutdown::Write);
                     std::thread::sleep(Duration::from_millis(2));
                 } else if step == "r" {
-                    match read_response(client, &mut pending, Duration::from_millis(1500)) {
+                    match read_response(client, &mut pending, Duration::from_millis(4000)) {
                         Ok(Some((st, close, body))) => out.push(format!("R{}:{}:{}", st, close as u8, hex(&body))),
                         Ok(None) => out.push("EOF".into()),
                         Err(e) => out.push(e.into()),
                     }
+                } else if step == "X" {
+                    // abortive close (RST); must be the last step of the script
+                    let lg = libc::linger { l_onoff: 1, l_linger: 0 };
+                    unsafe { libc::setsockopt(client.as_raw_fd(), libc::SOL_SOCKET, libc::SO_LINGER, &lg as *const _ as *const libc::c_void, std::mem::size_of::<libc::linger>() as u32) };
+                    break; // the socket is dropped right after the script: close() with linger 0 sends the RST
                 } else if step == "c" {
                     let _ = client.shutdown(std::net::Shutdown::Write);
                 } else if step == "e" {
-                    match read_response(client, &mut pending, Duration::from_millis(300)) {
+                    match read_response(client, &mut pending, Duration::from_millis(1200)) {
                         Ok(None) => out.push("EOF".into()),
                         Ok(Some((st, close, body))) => out.push(format!("R{}:{}:{}", st, close as u8, hex(&body))),
                         Err("HANG") => out.push("OPEN".into()),
